@@ -11,6 +11,7 @@ import warnings
 import numpy
 import scipy.sparse
 
+from .distgen import disturb as distgen_disturb
 from . import common, distgen
 from .common import Violation, col
 from .distgen import q, ql, qm, goal, dy, pos
@@ -117,6 +118,7 @@ def run(tier, seed):
         with numpy.errstate(all="ignore"), warnings.catch_warnings():
             warnings.simplefilter("ignore")
             try:
+                distgen_disturb(rnd, obj, xa)
                 mis = float(obj.misfit(xa.astype(work) if via == "concrete" else xa.copy()))
                 grad = col(obj.gradient(xa.astype(work) if via == "concrete" else xa.copy()))
             except Exception as e:  # noqa
